@@ -108,6 +108,12 @@ func main() {
 		c10OneMain(os.Args[2:])
 	case "c10-isolated":
 		c10IsolatedMain(os.Args[2:])
+	case "c10-replay-desc":
+		c10ReplayDescMain(os.Args[2:])
+	case "c10-canon-min":
+		c10CanonMinMain(os.Args[2:])
+	case "c10-escalate":
+		c10EscalateMain(os.Args[2:])
 	case "c10-history-witness":
 		c10HistoryWitnessMain(os.Args[2:])
 	case "c10-digest":
